@@ -39,6 +39,8 @@ def finish_derives(d: Decl, base, idx=0, want_default=None):
         has_finite = any(v.kind == "finite" for v in d.vals)
         if has_finite and not d.custom:
             der += ["Eq", "Ord"]
+            if "C12" not in d.tags:
+                d.tags.append("C12")
     if d.has_validation or idx % 2 == 0:
         der.append("TryFrom")
     else:
@@ -159,6 +161,8 @@ def build_int(b: Builder):
                 idx += 1
                 d = b.new(inner_int(ty))
                 add_with_sanitizer(d, sbody, SPELLINGS[(si + vi + ti) % 4])
+                if sname in ("wadd1", "half"):
+                    d.tags = [t for t in d.tags if t != "C11"]   # not idempotent: C11 does not apply
                 if vi == 1:
                     d.vals.append(int_bound("less_or_equal", ty, 50, "lit", d))
                 elif vi == 2:
@@ -179,6 +183,7 @@ def build_int(b: Builder):
             # duplicates of `with` are rejected by the macro, so only one `with` may be written
             d.sans = d.sans[:1]
             d.support = d.support[:2]
+            d.tags = [t for t in d.tags if t != "C11"]
             d.vals.append(int_bound("less", ty, 100, "lit", d))
             finish_derives(d, INT_DERIVES, idx)
         # predicates only, every spelling
@@ -417,7 +422,7 @@ def build_string(b: Builder):
             # built-in only (or idempotent custom) => C11 applies; non idempotent `with` bodies are excluded from C11
             if "with" in sl:
                 body_name = sbod[(si + vi) % len(sbod)][0]
-                if body_name in ("dup", "x2space"):
+                if body_name not in ("ident", "trimend"):
                     d.tags = [t for t in d.tags if t != "C11"]
 
 
